@@ -141,6 +141,8 @@ pub struct C29Config {
     pub max_docs: usize,
     pub max_edits: usize,
     pub faulty: bool,
+    pub reopen: bool,
+    pub config_changes: bool,
 }
 
 fn pick_text_of_class(rng: &mut Rng, corpus: &Corpus, k: u64, want: &str, templates_only: bool) -> usize {
@@ -188,6 +190,20 @@ pub fn gen_c29(rng: &mut Rng, corpus: &Corpus, cfg: &C29Config) -> Value {
     let mut edit_no = 0u64;
     for _ in 0..total_edits {
         let d = rng.usize_below(n_docs);
+        // close and reopen in the middle of a history (an editor tab closed and opened again);
+        // half of the time the client restarts its version numbering
+        if cfg.reopen && opened[d] && rng.chance(1, 8) {
+            ops.push(json!({"t": "close", "uri": uri(d)}));
+            opened[d] = false;
+            prev_class[d] = None;
+            if rng.chance(1, 2) {
+                version[d] = 0;
+            }
+        }
+        // the lookahead limit is server state too
+        if cfg.config_changes && rng.chance(1, 10) {
+            ops.push(json!({"t": "config", "settings": {"max_k": rng.range(1, 3)}}));
+        }
         let w = weights_after(prev_class[d].as_deref());
         let class = classes[rng.weighted(&w)];
         let ti = pick_text_of_class(rng, corpus, max_k, class, templates_only);
